@@ -376,6 +376,8 @@ fn ki5b_hcrc() {
     state.gzip_flags = if fhcrc { 0x0208 } else { 0x0008 };
     let ck: u32 = kani::any();
     state.checksum = ck;
+    // the running data CRC of an earlier gzip member decoded with the same stream object (inflateResetKeep keeps it)
+    state.crc_fold = Crc32Fold::new_with_initial(kani::any());
     state.head = head_ref(&mut head);
     state.flush = InflateFlush::Block;
     unsafe { state.bit_reader.update_slice(input.as_ptr(), n_in) };
@@ -385,6 +387,7 @@ fn ki5b_hcrc() {
     let used = consumed(&state, input.as_ptr());
     let mode = state.mode;
     let ck_after = state.checksum;
+    let fold_after = state.crc_fold;
     core::mem::forget(state);
     let given = u16::from_le_bytes([input[0], input[1]]) as u32;
     if !fhcrc {
@@ -399,6 +402,7 @@ fn ki5b_hcrc() {
     // the data CRC starts from the initial value once the header is done
     if matches!(mode, Mode::Type) && wrap & 4 != 0 {
         assert!(ck_after == 0);
+        assert!(fold_after.finish() == crate::CRC32_INITIAL_VALUE, "this member's data CRC starts afresh, whatever an earlier member left behind");
     }
     kani::cover!(rc == ReturnCode::DataError);
     kani::cover!(fhcrc && matches!(mode, Mode::Type) && wrap == 6);
